@@ -85,6 +85,7 @@ type Exec struct {
 	rangeIDs             map[*ssa.Range]int
 	views                map[int]*viewInfo
 	curSt                *State
+	finiteInputs         []*smt.Term
 	hintDiv              map[int]int // division-hint hypothesis -> id of the div term it is about
 	divRest              map[[2]int]*smt.Term
 }
